@@ -200,6 +200,9 @@ Usage:
 			}
 		}
 	}
+	if positional == nil {
+		positional = []any{} // not nil, which the update functions take for null
+	}
 	cli.argnames = append(cli.argnames, "$ARGS")
 	cli.argvalues = append(cli.argvalues, map[string]any{
 		"named":      named,
